@@ -305,6 +305,13 @@ func c15Execute(t *testing.T, cfg c15Cfg, next func(r *c15Run) (c15Stim, bool), 
 				break
 			}
 			c15CrashNote(r, s)
+			if c15SpinBeforeStimulus > 0 {
+				// replay only: let real time pass so that sync.Mutex waiters exceed the
+				// 1 ms starvation threshold and locks are handed to the oldest waiter
+				for i := 0; i < c15SpinBeforeStimulus; i++ {
+					runtime.Gosched()
+				}
+			}
 			r.apply(s)
 		}
 		r.final = true
@@ -423,7 +430,9 @@ func c15Decode(l []int64) (cfg c15Cfg, stims []c15Stim, ok bool) {
 
 var c15Caps = []int{0, 1, 4}
 
-const c15MaxInFlight = 3
+var c15MaxInFlight = 3
+
+var c15SpinBeforeStimulus = 0
 
 func c15GenCfg(r *verifh.Rand, thorough bool) c15Cfg {
 	cfg := c15Cfg{ntypes: 2}
@@ -570,6 +579,14 @@ func c15Cover(out *verifh.Out, cfg c15Cfg, labels [][4]int64) {
 	out.Cover("runs")
 }
 
+// Emitter(T1); Subscribe(T1, buf 0); Emit; Subscribe([T1,T0], buf 0); Emitter(T1); Emit; two receives on sub0
+var c15DeadlockCfg = c15Cfg{ntypes: 2,
+	emitters: []c15Emitter{{1, false}, {1, false}},
+	subs:     []c15Sub{{false, 0, []int{1}}, {false, 0, []int{1, 0}}},
+	emits:    []c15Emit{{0, 100}, {0, 101}}}
+
+var c15DeadlockStims = []c15Stim{{0, 0, 0}, {0, 3, 0}, {0, 2, 0}, {0, 3, 1}, {0, 0, 1}, {0, 2, 1}, {2, 0, 0}, {2, 0, 0}}
+
 func TestVerifNothing(t *testing.T) {}
 
 func TestVerifC15(t *testing.T) {
@@ -579,12 +596,53 @@ func TestVerifC15(t *testing.T) {
 	}
 	rnd := verifh.NewRand(verifh.Seed())
 	thorough := verifh.Tier() == "thorough"
-	runs := 1200
+	runs := 900
 	if thorough {
 		runs = 20000
+		c15MaxInFlight = 4
 	}
+	start := 0
+	fmt.Sscanf(os.Getenv("C15_START"), "%d", &start)
+	ncorpus := 4
+	if thorough {
+		ncorpus = 12
+	}
+	runs += ncorpus
+	maxInFlight := c15MaxInFlight
 	for i := 0; i < runs; i++ {
 		rr := rnd.Fork()
+		if i < start {
+			continue // already executed by an earlier invocation that stopped on a stuck run
+		}
+		if i < ncorpus {
+			// corpus: the minimal history of the known bus-lock deadlock
+			// (known_findings/C15.json); whether it strikes depends on sync.Mutex
+			// hand-off, so it is attempted a few times with real time passing
+			c15MaxInFlight, c15SpinBeforeStimulus = 1<<20, 60000
+			k := 0
+			line, _, _ := c15Execute(t, c15DeadlockCfg, func(r *c15Run) (c15Stim, bool) {
+				for k < len(c15DeadlockStims) {
+					s := c15DeadlockStims[k]
+					k++
+					for _, e := range r.enabled() {
+						if e == s {
+							return s, true
+						}
+					}
+				}
+				return c15Stim{}, false
+			}, false, func(line []int64, r *c15Run) {
+				out.Case(line)
+				out.Cover("corpus.buslock_deadlock.struck")
+				out.Close()
+				fmt.Println("C15STUCK")
+				os.Exit(1)
+			})
+			c15MaxInFlight, c15SpinBeforeStimulus = maxInFlight, 0
+			out.Case(line)
+			out.Cover("corpus.buslock_deadlock.attempts")
+			continue
+		}
 		cfg := c15GenCfg(rr, thorough)
 		budget := 10 + rr.Intn(30)
 		drain := rr.Bool()
@@ -593,6 +651,7 @@ func TestVerifC15(t *testing.T) {
 			out.Case(line)
 			out.Cover("run.stuck")
 			out.Close()
+			fmt.Println("C15STUCK")
 			os.Exit(1)
 		}
 		line, _, r := c15Execute(t, cfg, c15RandomNext(rr, budget), drain, onStuck)
@@ -614,6 +673,8 @@ func TestVerifC15Replay(t *testing.T) {
 		t.Fatal(err)
 	}
 	cfg, stims, ok := c15Decode(verifh.ReplayCase())
+	c15MaxInFlight = 1 << 20 // replay exactly what was recorded
+	c15SpinBeforeStimulus = 60000
 	if !ok {
 		t.Fatal("cannot decode VERIF_REPLAY_CASE")
 	}
